@@ -287,8 +287,8 @@ pub fn run(tier: Tier) -> ! {
     let mut runs = vec![];
     // depth per capacity: the op alphabet has 2N+6 symbols
     let plan: Vec<(usize, usize)> = match tier {
-        Tier::Quick => vec![(0, 6), (1, 6), (2, 5), (3, 5), (4, 5), (6, 4)],
-        Tier::Thorough => vec![(0, 8), (1, 8), (2, 7), (3, 7), (4, 7), (6, 6)],
+        Tier::Quick => vec![(0, 7), (1, 7), (2, 6), (3, 6), (4, 6), (6, 5)],
+        Tier::Thorough => vec![(0, 9), (1, 9), (2, 8), (3, 8), (4, 7), (6, 7)],
     };
     for (n, depth) in plan {
         let name = format!("ArrayBuf<{}>", n);
